@@ -117,6 +117,18 @@ def handle (line : String) : String :=
        | none => "fail"
        | some (vs, rest) => s!"ok {",".intercalate (vs.map toString)} rest={rest.length}")
     | _, _ => "bad-op"
+  | "forge" =>
+    -- bytes built by an attacker from what was on the wire (e.g. re-MACed with a revealed MAC key): no
+    -- modelled party produced them, so no oracle entry; the model's verdict is the property's
+    match o.get? "script", o.get? "to", (o.get? "in").bind hexList with
+    | some sc, some to, some pieces =>
+      match (sc.splitOn ",").mapM parseTok with
+      | none => "bad-op"
+      | some steps =>
+        match World.runTo {} steps with
+        | none => "panic"
+        | some w => ",".intercalate (runPieces (w.party (to == "a")) {} pieces)
+    | _, _, _ => "bad-op"
   | "mut" =>
     match o.get? "script", o.get? "to", o.hex? "orig", (o.get? "in").bind hexList with
     | some sc, some to, some orig, some pieces =>
